@@ -10,7 +10,13 @@ pub struct GroupM {
     pub cursor: Id,
     /// id -> (consumer, delivery wall ms, delivery count)
     pub pel: BTreeMap<Id, (String, u64, u64)>,
+    /// consumers that certainly exist (explicitly created, or hold / held pending entries)
     pub consumers: BTreeSet<String>,
+    /// consumers named by a read/claim that delivered nothing: Redis creates them, their existence is don't-care
+    pub maybe: BTreeSet<String>,
+    /// `$` taken while the top entry was deleted: the largest present id is accepted as the cursor too
+    /// (no entry lies between the two, so deliveries are identical); cleared when the cursor moves
+    pub cursor_alt: Option<Id>,
 }
 
 #[derive(Clone, Debug, PartialEq, Default)]
@@ -34,7 +40,7 @@ pub fn fmt_id(id: Id) -> String {
 }
 
 pub fn rel_id(id: Id, ms_base: u64) -> String {
-    if ms_base > 0 && id.0 >= ms_base {
+    if ms_base > 0 && id.0 >= ms_base && id.0 - ms_base < 1_000_000_000 {
         format!("T+{}-{}", id.0 - ms_base, id.1)
     } else {
         fmt_id(id)
@@ -460,7 +466,12 @@ impl Model {
                             return Exp::Err;
                         }
                         let cur = st.clone().unwrap_or_default();
+                        let mut cursor_alt = None;
                         let cursor = if idarg.as_slice() == b"$" {
+                            let top = cur.entries.keys().next_back().cloned().unwrap_or((0, 0));
+                            if top != cur.last_id {
+                                cursor_alt = Some(top);
+                            }
                             cur.last_id
                         } else {
                             match range_id(&idarg, false) {
@@ -475,7 +486,7 @@ impl Model {
                             self.set(db, &args[2], Val::Stream(StreamM::default()), None);
                         }
                         if let Some(Entry { val: Val::Stream(sm), .. }) = self.dbs[db].keys.get_mut(&args[2]) {
-                            sm.groups.insert(s(&args[3]), GroupM { cursor, ..Default::default() });
+                            sm.groups.insert(s(&args[3]), GroupM { cursor, cursor_alt, ..Default::default() });
                         }
                         Exp::Is(R::ok())
                     }
@@ -497,7 +508,12 @@ impl Model {
                         match self.stream_of(db, &args[2]) {
                             Err(()) | Ok(None) => Exp::Err,
                             Ok(Some(sm)) => {
+                                let mut cursor_alt = None;
                                 let cursor = if idarg.as_slice() == b"$" {
+                                    let top = sm.entries.keys().next_back().cloned().unwrap_or((0, 0));
+                                    if top != sm.last_id {
+                                        cursor_alt = Some(top);
+                                    }
                                     sm.last_id
                                 } else {
                                     match range_id(&idarg, false) {
@@ -508,6 +524,7 @@ impl Model {
                                 match sm.groups.get_mut(&s(&args[3])) {
                                     Some(g) => {
                                         g.cursor = cursor;
+                                        g.cursor_alt = cursor_alt;
                                         Exp::Is(R::ok())
                                     }
                                     None => Exp::Err,
@@ -522,7 +539,15 @@ impl Model {
                         match self.stream_of(db, &args[2]) {
                             Err(()) | Ok(None) => Exp::Err,
                             Ok(Some(sm)) => match sm.groups.get_mut(&s(&args[3])) {
-                                Some(g) => Exp::Is(int(g.consumers.insert(s(&args[4])) as i64)),
+                                Some(g) => {
+                                    let c = s(&args[4]);
+                                    if g.maybe.remove(&c) {
+                                        g.consumers.insert(c);
+                                        Exp::OneOf(vec![Exp::Is(int(0)), Exp::Is(int(1))])
+                                    } else {
+                                        Exp::Is(int(g.consumers.insert(c) as i64))
+                                    }
+                                }
                                 None => Exp::Err,
                             },
                         }
@@ -541,6 +566,7 @@ impl Model {
                                         g.pel.remove(i);
                                     }
                                     g.consumers.remove(&c);
+                                    g.maybe.remove(&c);
                                     Exp::Is(int(ids.len() as i64))
                                 }
                                 None => Exp::Err,
@@ -601,7 +627,9 @@ impl Model {
                     Some(x) => x,
                     None => return Exp::Err,
                 };
-                grp.consumers.insert(c.clone());
+                if !grp.consumers.contains(&c) {
+                    grp.maybe.insert(c.clone());
+                }
                 if idb.as_slice() == b">" {
                     let mut sel: Vec<(Id, Fields)> = entries.iter().filter(|(i, _)| **i > grp.cursor).map(|(i, f)| (*i, f.clone())).collect();
                     if let Some(k) = count {
@@ -609,10 +637,15 @@ impl Model {
                     }
                     if let Some((last, _)) = sel.last() {
                         grp.cursor = *last;
+                        grp.cursor_alt = None;
                     }
                     if !noack {
                         for (i, _) in sel.iter() {
                             grp.pel.insert(*i, (c.clone(), wall, 1));
+                        }
+                        if !sel.is_empty() {
+                            grp.maybe.remove(&c);
+                            grp.consumers.insert(c.clone());
                         }
                     }
                     let w = sel;
@@ -731,7 +764,9 @@ impl Model {
                     Some(g) => g,
                     None => return Exp::Err,
                 };
-                g.consumers.insert(c.clone());
+                if !g.consumers.contains(&c) {
+                    g.maybe.insert(c.clone());
+                }
                 let mut claimed: Vec<Id> = Vec::new();
                 for i in ids {
                     let in_pel = g.pel.contains_key(&i);
@@ -751,6 +786,10 @@ impl Model {
                         g.pel.insert(i, (c.clone(), wall, 1));
                         claimed.push(i);
                     }
+                }
+                if !claimed.is_empty() {
+                    g.maybe.remove(&c);
+                    g.consumers.insert(c.clone());
                 }
                 if justid {
                     Exp::Is(R::Arr(claimed.iter().map(|i| R::Bulk(fmt_id(*i).into_bytes())).collect()))
@@ -895,6 +934,8 @@ impl Model {
                             return Exp::Err;
                         }
                         let want: Vec<(String, i64, i64, String)> = sm.groups.iter().map(|(name, g)| (name.clone(), g.consumers.len() as i64, g.pel.len() as i64, fmt_id(g.cursor))).collect();
+                        let alts: std::collections::BTreeMap<String, String> = sm.groups.iter().filter_map(|(name, g)| g.cursor_alt.map(|a| (name.clone(), fmt_id(a)))).collect();
+                        let slack: std::collections::BTreeMap<String, i64> = sm.groups.iter().map(|(name, g)| (name.clone(), g.maybe.len() as i64)).collect();
                         let cls = format!("groups[{}]", want.len());
                         Exp::Pred(cls, Box::new(move |a| {
                             let v: Vec<R> = match a {
@@ -919,7 +960,10 @@ impl Model {
                             got.sort();
                             let mut w = want.clone();
                             w.sort();
-                            got == w
+                            got.len() == w.len() && got.iter().zip(w.iter()).all(|(g, x)| {
+                                let extra = slack.get(&x.0).cloned().unwrap_or(0);
+                                g.0 == x.0 && g.1 >= x.1 && g.1 <= x.1 + extra && g.2 == x.2 && (g.3 == x.3 || alts.get(&x.0) == Some(&g.3))
+                            })
                         }))
                     }
                     "CONSUMERS" => {
@@ -931,6 +975,7 @@ impl Model {
                             None => return Exp::Err,
                         };
                         let want: Vec<(String, i64)> = g.consumers.iter().map(|c| (c.clone(), g.pel.values().filter(|v| v.0 == *c).count() as i64)).collect();
+                        let maybe = g.maybe.clone();
                         let cls = format!("consumers[{}]", want.len());
                         Exp::Pred(cls, Box::new(move |a| {
                             let v: Vec<R> = match a {
@@ -938,15 +983,17 @@ impl Model {
                                 R::NilArr => vec![],
                                 _ => return false,
                             };
-                            if v.len() != want.len() {
-                                return false;
-                            }
                             let mut got: Vec<(String, i64)> = Vec::new();
                             for item in v.iter() {
                                 let name = field(item, "name").and_then(|r| r.as_bytes()).map(|b| String::from_utf8_lossy(b).to_string());
                                 let pend = field(item, "pending").and_then(|r| if let R::Int(i) = r { Some(*i) } else { None });
                                 match (name, pend) {
-                                    (Some(a), Some(b)) => got.push((a, b)),
+                                    (Some(a), Some(b)) => {
+                                        if maybe.contains(&a) && b == 0 {
+                                            continue; // implicitly created consumer: existence is don't-care
+                                        }
+                                        got.push((a, b))
+                                    }
                                     _ => return false,
                                 }
                             }
@@ -961,5 +1008,35 @@ impl Model {
             }
             _ => Exp::Err,
         }
+    }
+}
+
+/// class of a stream id argument relative to the stream's present entries (for signatures)
+pub fn bound_class(arg: &[u8], ids: &[Id], last: Id) -> String {
+    if arg == b"-" || arg == b"+" || arg == b"$" || arg == b">" {
+        return String::from_utf8_lossy(arg).to_string();
+    }
+    let id = match parse_id(arg) {
+        Some(i) => i,
+        None => return format!("nonid:{}", crate::resp::show_bytes(arg)),
+    };
+    if id == (0, 0) {
+        return "0-0".into();
+    }
+    if id == (u64::MAX, u64::MAX) {
+        return "max-id".into();
+    }
+    if ids.is_empty() {
+        return if id == last { "=last_id(no entries)".into() } else if id < last { "<last_id(no entries)".into() } else { ">last_id(no entries)".into() };
+    }
+    if ids.contains(&id) {
+        return if id == ids[0] { "=first".into() } else if id == ids[ids.len() - 1] { "=top".into() } else { "=present".into() };
+    }
+    if id < ids[0] {
+        "<first".into()
+    } else if id > ids[ids.len() - 1] {
+        if id == last { "=last_id(deleted top)".into() } else if id < last { ">top,<last_id".into() } else { ">top".into() }
+    } else {
+        "gap".into()
     }
 }
